@@ -511,6 +511,10 @@ class Judge:
             if any(f[0] == 'diskerr' for f in o.get('fired', [])) and o['res']['err'][0] in ('OSError', 'PermissionError', 'FileNotFoundError', 'IsADirectoryError', 'NotADirectoryError'):
                 # an injected file-system error while the stored result was being deleted: force reports it; what is left is unknown
                 self.stats['force_delete_diskerr'] = self.stats.get('force_delete_diskerr', 0) + 1
+                # whether the task counts as forced after the failed call is not stated anywhere: the observed flag is taken over
+                fl = o['res'].get('flags') or {}
+                if name in fl:
+                    self.proc['objs'][chain['tok'][name]].forced = bool(fl[name])
             else:
                 self.disc('C07', 'I-force', op['i'], 'Task.force raised', err=o['res']['err'], task=name, delete=op.get('delete'))
             self._force_failed(chain, [name])
